@@ -48,6 +48,9 @@ impl Check for C10 {
     fn shards(&self) -> usize {
         8
     }
+    fn shrink_steps(&self) -> usize {
+        120
+    }
     fn cases(&self, tier: Tier) -> usize {
         tier.pick(240, 6_000)
     }
